@@ -314,8 +314,9 @@ func classify(err error) string {
 
 func (w *worker) run(in *podIn) podObs {
 	ann := map[string]string{}
-	for _, a := range in.Ann {
-		ann[a.K] = a.V
+	for i := range in.Ann {
+		decode(&in.Ann[i]) // the YAML oracle, recomputed on every run (also on replay)
+		ann[in.Ann[i].K] = in.Ann[i].V
 	}
 	o := podObs{Devices: []devObs{}, CDI: []string{}, Mounts: []mount{}, Rlimits: []rlObs{}}
 	ctx, cancel := context.WithTimeout(context.Background(), 60*time.Second)
@@ -494,11 +495,6 @@ func Run(o *hx.Opts, w *lineio.Writer) error {
 	}
 	if len(inputs) == 0 {
 		return nil
-	}
-	for _, in := range inputs {
-		for i := range in.Ann {
-			decode(&in.Ann[i])
-		}
 	}
 
 	// build the two plugins from the repository under test
